@@ -12,7 +12,7 @@ COMMON_ASSUMPTIONS = [
     "the fake RoundTripper is the broker: its decisions (Br.Produce applied/acked/lost/code) are environment events; leader moves are represented as temporary error codes (NotLeaderForPartition) followed by a retry",
     "D1/D1b fixed in /repo (no partition writer is created after Close): one partition writer per topic-partition for the Writer's life",
     "the broker decides on an attempt while the client still waits for it (`produce` is enabled only for an in-flight attempt): a request that a broker applies after its connection died and the client already retried elsewhere (possible in Kafka without idempotent producers) is outside the model; the wire broker drops such requests unhandled",
-    "over the real Transport (wire scenarios) an answer the broker sent but the client did not get is recorded as lost (lost1 / lost0)",
+    "over the real Transport (wire scenarios) an answer the broker sent but the client did not read completely is recorded as lost (lost1 / lost0); an answer the client read completely (the broker's write on the net.Pipe returned) counts as delivered, whatever the client made of it",
     "an attempt error without a name of its own is reported by the hook as 'othertmp' when it declares itself Temporary() (e.g. the connection's i/o timeout racing the context deadline over the real Transport), else 'other'; the model retries after 'othertmp' as after the named temporary errors",
     "timed runs (family trickle): the clock is a logical one (a goroutine of the driver adds 500 µs per completed 500 µs sleep), so it slows down with the process under load; the timer goroutine of a batch is assumed to get to close the batch within 60 ms of that clock after BatchTimeout (`linger` = BatchTimeout + slack)",
     "message content: Key / Value are observed at the broker as null / empty / bytes (all attempts); their byte content beyond the id, and Time, are C05's",
